@@ -537,18 +537,20 @@ func (un *Unit) execAppend(fr *Frame, st *State, c *ssa.CallCommon, args []Val, 
 	qi := "qi!" + fmt.Sprint(un.u.fresh)
 	un.u.usesQuant = true
 	srcA := sel(old, "(s_arr "+a+")")
+	es := un.u.sortOf(et)
 	var srcB string
 	if bIsStr {
 		un.u.declareFun("g_str_bytes", []string{"String"}, arraySort("Int", "Int"))
 		srcB = fmt.Sprintf("(select (g_str_bytes %s) (- %s (s_len %s)))", b, qi, a)
 	} else {
-		srcB = fmt.Sprintf("(select %s (+ (s_off %s) (- %s (s_len %s))))", sel(old, "(s_arr "+b+")"), b, qi, a)
+		srcB = un.gat(sel(old, "(s_arr "+b+")"), "(s_off "+b+")", fmt.Sprintf("(- %s (s_len %s))", qi, a), es)
 	}
 	roff := "(s_off " + res + ")"
-	un.addFact(fmt.Sprintf("(forall ((%s Int)) (=> (and (<= 0 %s) (< %s (s_len %s))) (= (select %s (+ %s %s)) (select %s (+ (s_off %s) %s)))))",
-		qi, qi, qi, a, newArr, roff, qi, srcA, a, qi))
-	un.addFact(fmt.Sprintf("(forall ((%s Int)) (=> (and (<= (s_len %s) %s) (< %s %s)) (= (select %s (+ %s %s)) %s)))",
-		qi, a, qi, qi, newLen, newArr, roff, qi, srcB))
+	newAt := un.gat(newArr, roff, qi, es)
+	un.addFact(fmt.Sprintf("(forall ((%s Int)) (! (=> (and (<= 0 %s) (< %s (s_len %s))) (= %s %s)) :pattern (%s)))",
+		qi, qi, qi, a, newAt, un.gat(srcA, "(s_off "+a+")", qi, es), newAt))
+	un.addFact(fmt.Sprintf("(forall ((%s Int)) (! (=> (and (<= (s_len %s) %s) (< %s %s)) (= %s %s)) :pattern (%s)))",
+		qi, a, qi, qi, newLen, newAt, srcB, newAt))
 	// in-place case: elements outside [off+len(a), off+newLen) unchanged
 	un.addFact(implies(fits, fmt.Sprintf("(forall ((%s Int)) (=> (or (< %s (+ (s_off %s) (s_len %s))) (>= %s (+ (s_off %s) %s))) (= (select %s %s) (select %s %s))))",
 		qi, qi, a, a, qi, a, newLen, newArr, qi, srcA, qi)))
@@ -773,6 +775,10 @@ func (un *Unit) modelCall(fr *Frame, st *State, callee *ssa.Function, full strin
 			return Val{t: ite(eq("(i_tag "+args[0].t+")", "0"), "(mk_iface 0 0)", fmt.Sprintf("(mk_iface %d %s)", 100002, r))}, true
 		}
 		return Val{t: fmt.Sprintf("(mk_iface %d %s)", 100002, r)}, true
+	case "sort.Slice", "sort.SliceStable":
+		if v, ok := un.modelSortSlice(fr, st, args, ats, pos); ok {
+			return v, true
+		}
 	case "errors.Is":
 		r := un.u.freshConst("errors_is", "Bool")
 		// nil is no error; an error is itself
@@ -925,4 +931,84 @@ func (un *Unit) variadicElems(fr *Frame, v ssa.Value) ([]ssa.Value, bool) {
 		}
 	}
 	return out, true
+}
+
+
+// lessIsAscending recognises the comparison closure `func(i, j int) bool { return s[i] < s[j] }` over a captured slice variable.
+func lessIsAscending(fn *ssa.Function) bool {
+	if fn == nil || len(fn.Blocks) != 1 || len(fn.Params) != 2 || len(fn.FreeVars) != 1 {
+		return false
+	}
+	var ret *ssa.Return
+	for _, in := range fn.Blocks[0].Instrs {
+		if r, ok := in.(*ssa.Return); ok {
+			ret = r
+		}
+	}
+	if ret == nil || len(ret.Results) != 1 {
+		return false
+	}
+	b, ok := ret.Results[0].(*ssa.BinOp)
+	if !ok || b.Op != token.LSS {
+		return false
+	}
+	elemOf := func(v ssa.Value, p *ssa.Parameter) bool {
+		u, ok := v.(*ssa.UnOp)
+		if !ok || u.Op != token.MUL {
+			return false
+		}
+		ia, ok := u.X.(*ssa.IndexAddr)
+		if !ok || ia.Index != p {
+			return false
+		}
+		ld, ok := ia.X.(*ssa.UnOp)
+		return ok && ld.Op == token.MUL && ld.X == fn.FreeVars[0]
+	}
+	return elemOf(b.X, fn.Params[0]) && elemOf(b.Y, fn.Params[1])
+}
+
+// modelSortSlice: sort.Slice(s, func(i,j) bool { return s[i] < s[j] }) leaves s an ascending permutation of itself.
+func (un *Unit) modelSortSlice(fr *Frame, st *State, args []Val, ats []types.Type, pos token.Pos) (Val, bool) {
+	less := args[1]
+	if less.fn == nil || !lessIsAscending(less.fn) {
+		return Val{}, false
+	}
+	// the sorted slice: the value captured by the closure (same variable as the one boxed into args[0])
+	if len(less.binds) != 1 {
+		return Val{}, false
+	}
+	fv := less.fn.FreeVars[0]
+	slT, ok := fv.Type().(*types.Pointer).Elem().Underlying().(*types.Slice)
+	if !ok {
+		return Val{}, false
+	}
+	p := un.placeOf(st, less.binds[0], fv.Type().(*types.Pointer).Elem())
+	sl := un.loadPlace(st, p)
+	ec := un.elemComp(slT.Elem())
+	old := sel(un.get(st, ec), "(s_arr "+sl+")")
+	fresh := un.u.freshConst("sorted", arraySort("Int", un.u.sortOf(slT.Elem())))
+	un.u.fresh++
+	id := un.u.fresh
+	perm := fmt.Sprintf("g_perm!%d", id)
+	inv := fmt.Sprintf("g_pinv!%d", id)
+	un.u.declareFun(perm, []string{"Int"}, "Int")
+	un.u.declareFun(inv, []string{"Int"}, "Int")
+	un.u.usesQuant = true
+	off, ln := "(s_off "+sl+")", "(s_len "+sl+")"
+	qi := fmt.Sprintf("qs!%d", id)
+	qj := fmt.Sprintf("qt!%d", id)
+	// all facts are over g_at(array, off, i) with i relative to the slice: no arithmetic inside triggers
+	es := un.u.sortOf(slT.Elem())
+	rat := func(a, i string) string { return un.gat(a, off, i, es) }
+	rin := func(i string) string { return "(and (<= 0 " + i + ") (< " + i + " " + ln + "))" }
+	un.assume(st, fmt.Sprintf("(forall ((%s Int)) (! (=> %s (and %s (= %s %s) (= (%s (%s %s)) %s))) :pattern ((%s %s)) :pattern (%s)))",
+		qi, rin(qi), rin("("+perm+" "+qi+")"), rat(fresh, qi), rat(old, "("+perm+" "+qi+")"), inv, perm, qi, qi, perm, qi, rat(fresh, qi)))
+	un.assume(st, fmt.Sprintf("(forall ((%s Int)) (! (=> %s (and %s (= (%s (%s %s)) %s) (= %s %s))) :pattern ((%s %s)) :pattern (%s)))",
+		qj, rin(qj), rin("("+inv+" "+qj+")"), perm, inv, qj, qj, rat(fresh, "("+inv+" "+qj+")"), rat(old, qj), inv, qj, rat(old, qj)))
+	un.assume(st, fmt.Sprintf("(forall ((%s Int) (%s Int)) (! (=> (and %s %s (<= %s %s)) (<= %s %s)) :pattern (%s %s)))", qi, qj, rin(qi), rin(qj), qi, qj, rat(fresh, qi), rat(fresh, qj), rat(fresh, qi), rat(fresh, qj)))
+	// outside the window unchanged
+	un.assume(st, fmt.Sprintf("(forall ((%s Int)) (! (=> (or (< %s %s) (>= %s (+ %s %s))) (= (select %s %s) (select %s %s))) :pattern ((select %s %s))))", qi, qi, off, qi, off, ln, fresh, qi, old, qi, fresh, qi))
+	un.set(st, ec, sto(un.get(st, ec), fresh, "(s_arr "+sl+")"))
+	un.assumed["sort.Slice with the comparison s[i] < s[j] leaves s an ascending permutation of its former contents"] = true
+	return Val{t: "0"}, true
 }
